@@ -112,6 +112,14 @@ def check_label(ctx, mods, s):
         ok_e, val = _try(ctx, ICE, "chord.encode", s, ch.encode, s, red, strict)
         if ok_e:
             encs[(red, strict)] = val
+    if (False, False) not in encs:
+        # a label encode() rejects must not slip through the batch encoder
+        ok_m, many = _try(ctx, ICE, "chord.encode_many", s, ch.encode_many, [s])
+        ctx.count("contract.encode_many_rejects")
+        if ok_m:
+            _viol(ctx, "chord.encode_many", "accepts-what-encode-rejects",
+                  "encode(%r) raises InvalidChordException but encode_many([%r]) returns "
+                  "%r" % (s, s, short(many, 120)), s)
     if not want:
         return
     nt = (":" in s or "(" in s or "/" in s)
